@@ -36,7 +36,7 @@ def reset (s : S) (n : Nat) : S :=
 
 /-- `par(v)`: `if self.p[v] != v { self.p[v] = self.par(self.p[v]); } self.p[v]`. -/
 def par : Nat → S → Nat → Except Panic (S × Nat)
-  | 0, _, _ => .error .fuel
+  | 0, s, v => if v < s.p.size then .error .fuel else .error .index   -- the index check comes first in the code
   | f + 1, s, v =>
     if h : v < s.p.size then
       if s.p[v] = v then .ok (s, v)
@@ -148,27 +148,37 @@ structure Part where
   n : Nat
   label : Array Nat
   members : Array (List Nat)
+  csize : Array Nat            -- csize[l] = length of members[l] (kept so that `size` is O(1))
 
-def Part.new (n : Nat) : Part := ⟨n, Array.range n, (Array.range n).map (fun i => [i])⟩
+def Part.new (n : Nat) : Part :=
+  ⟨n, Array.range n, (Array.range n).map (fun i => [i]), Array.replicate n 1⟩
 
 def Part.conn (q : Part) (u v : Nat) : Bool := q.label.getD u u == q.label.getD v v
 
-def Part.size (q : Part) (v : Nat) : Nat := (q.members.getD (q.label.getD v v) []).length
+def Part.size (q : Part) (v : Nat) : Nat := q.csize.getD (q.label.getD v v) 0
 
 /-- join the classes of `u` and `v`; `true` iff they were different. -/
 def Part.union : Part → Nat → Nat → Part × Bool
-  | ⟨n, label, members⟩, u, v =>
+  | ⟨n, label, members, csize⟩, u, v =>
     let a := label.getD u u
     let b := label.getD v v
-    if a = b then (⟨n, label, members⟩, false)
+    if a = b then (⟨n, label, members, csize⟩, false)
     else
-      let ma := members.getD a []
-      let mb := members.getD b []
-      if ma.length ≤ mb.length then
+      let ca := csize.getD a 0
+      let cb := csize.getD b 0
+      if ca ≤ cb then
+        let ma := members.getD a []
+        let members := members.setIfInBounds a []
+        let mb := members.getD b []
+        let members := members.setIfInBounds b []
         (⟨n, ma.foldl (fun l x => l.setIfInBounds x b) label,
-          (members.setIfInBounds b (ma ++ mb)).setIfInBounds a []⟩, true)
+          members.setIfInBounds b (ma ++ mb), (csize.setIfInBounds b (ca + cb)).setIfInBounds a 0⟩, true)
       else
+        let mb := members.getD b []
+        let members := members.setIfInBounds b []
+        let ma := members.getD a []
+        let members := members.setIfInBounds a []
         (⟨n, mb.foldl (fun l x => l.setIfInBounds x a) label,
-          (members.setIfInBounds a (mb ++ ma)).setIfInBounds b []⟩, true)
+          members.setIfInBounds a (mb ++ ma), (csize.setIfInBounds a (ca + cb)).setIfInBounds b 0⟩, true)
 
 end Rlib.Dsu
